@@ -127,6 +127,12 @@ def modifiers(ctx, cfg, feats):
                 invalid = True
         ok = lit == SN.PSK_PREFIX and idx == len(SN.PSK_PREFIX) and psk_ctor and invalid
         why = "guard literal %r, strip index %r, Psk ctor %s, InvalidPsk %s" % (lit, idx, psk_ctor, invalid)
+    if not ok:
+        ok2, why2 = psk_arm_mir(ctx, cfg, body, SN.PSK_PREFIX)
+        if ok2:
+            ok = True
+        else:
+            why = why + "; " + why2
     ctx.ob("modifier-list", "psk-arm", ok, "psk<N>: prefix 'psk' is tested and exactly 3 bytes are stripped; a bad number is InvalidPsk" if ok else "psk modifier arm malformed: " + why, w, cfg)
 
 
@@ -416,3 +422,63 @@ def modifier_list(ctx, cfg):
     errs = [(b, v, s) for (b, v, s) in ret_err_sites(fn, R) if v == ("Pattern", "DuplicateModifier")]
     okd = bool(errs) and all(any(f[0] == "bool" and f[2] is True and f[1][0] == "call" and (f[1][1] or "").endswith("contains") for f in G.at_entry(b)) for (b, v, s) in errs)
     ctx.ob("modifier-list", "dup-error", okd, "a repeated modifier yields Pattern(DuplicateModifier)" if okd else "no DuplicateModifier exit guarded by contains()", w, cfg)
+
+
+
+def psk_arm_mir(ctx, cfg, body, prefix):
+    """the same facts read off the MIR, for any spelling (match guard + s[3..], strip_prefix, if-let ...): the number parsed
+    for Psk(n) is exactly the input minus the literal prefix; the prefix was tested; a bad number is Pattern(InvalidPsk)"""
+    from .common import find_call, find_agg
+    F = ctx.facts[cfg]
+    fn = F.fn(body["path"])
+    if fn is None:
+        return False, "no MIR"
+    G = ctx.guards(cfg, fn)
+    R = G.R
+    parses = [(b, t) for b, t in fn.calls() if (t["callee"].get("def") or "").endswith("str::<impl str>::parse")]
+    if len(parses) != 1:
+        return False, "%d parse() calls" % len(parses)
+    pb, pt = parses[0]
+    a = strip_bb(R.op(pt["args"][0]))
+    src_ok = False
+    sp = find_call(a, ("str::<impl str>::strip_prefix",))
+    if sp is not None and len(sp[3]) == 2 and strip_bb(sp[3][0]) == ("arg", 1) and strip_bb(sp[3][1]) == ("str", prefix):
+        src_ok = True
+    else:
+        from ..lenflow import range_of, is_index_call
+        if is_index_call(a) and strip_bb(a[3][0]) == ("arg", 1):
+            r = range_of(a[3][1])
+            tested = any(f[0] == "bool" and f[2] is True and f[1][0] == "call" and (f[1][1] or "").endswith("starts_with") and len(f[1][3]) == 2
+                         and strip_bb(f[1][3][0]) == ("arg", 1) and strip_bb(f[1][3][1]) == ("str", prefix) for f in G.before_term(pb))
+            src_ok = bool(r) and r == ("from", ("const", len(prefix))) and tested
+    if not src_ok:
+        return False, "the parsed text is not the input minus the tested prefix %r: %s" % (prefix, show(a, fn)[:120])
+    # Psk(n) carries the parsed number
+    ctor = False
+    for b in fn.blocks:
+        for st in b["stmts"]:
+            if st["k"] == "assign" and st["rv"]["k"] == "aggregate" and (st["rv"].get("adt") or "").endswith("HandshakeModifier") and st["rv"].get("variant_name") == "Psk":
+                v = R.op(st["rv"]["ops"][0])
+                c = find_call(v, ("str::<impl str>::parse",))
+                if c is not None and len(c) > 4 and c[4] == pb:
+                    ctor = True
+    if not ctor:
+        return False, "Psk(n) does not carry the parsed number"
+    # the parse error becomes Pattern(InvalidPsk)
+    made = set()
+    for b in fn.blocks:
+        for st in b["stmts"]:
+            if st["k"] == "assign" and st["rv"]["k"] == "aggregate" and st["rv"].get("agg") == "closure":
+                made.add(st["rv"].get("def"))
+    inv = False
+    for p2 in made:
+        g = F.fn(p2)
+        if g is None:
+            continue
+        for b in g.blocks:
+            for st in b["stmts"]:
+                if st["k"] == "assign" and st["place"]["local"] == 0 and st["rv"]["k"] == "aggregate" and st["rv"].get("variant_name") == "InvalidPsk":
+                    inv = True
+    if not inv:
+        inv = any(v == ("Pattern", "InvalidPsk") for (b, v, st) in ret_err_sites(fn, R))
+    return (inv, "" if inv else "a malformed number is not reported as Pattern(InvalidPsk)")
